@@ -8,7 +8,7 @@ sys.path.insert(0, "/verif")
 from vf import elab
 from litex.soc.integration import soc as S
 try: import contracts.C13_soc_paths as W
-except ImportError: import contracts.wip_C13_soc_paths as W
+except ImportError: import contracts.C13_soc_paths as W
 # stub CPU classes (one wishbone master; `vfx_io2`: IO regions 0x8000_0000+256MiB and 0xe000_0000+512MiB) and the SoCCore builder
 logging.disable(logging.CRITICAL)
 hit = 0
